@@ -12,6 +12,7 @@ def sh(cmd, timeout=3000):
         return 124, "TIMEOUT"
 if subprocess.run("git -C /repo status --porcelain --untracked-files=no", shell=True, capture_output=True, text=True).stdout.strip():
     print("refusing: /repo dirty"); sys.exit(2)
+DRY = os.environ.get("SEEDED_DRY") == "1"  # other seeds / tiers: report only, keep meta.json and SUMMARY.json
 only = set(sys.argv[1:])
 rows = []
 for d in sorted(os.listdir("/verif/seeded")):
@@ -26,7 +27,7 @@ for d in sorted(os.listdir("/verif/seeded")):
         if rc != 0:
             det["error"] = out[-200:]
         else:
-            for tier in ["quick", "thorough"]:
+            for tier in (["quick"] if DRY else ["quick", "thorough"]):
                 t0 = time.time()
                 rc, out = sh(f"cd /verif && ./check {prop} {tier}")
                 viol = [l.strip() for l in out.splitlines() if l.strip().startswith("violation sig=")]
@@ -34,12 +35,14 @@ for d in sorted(os.listdir("/verif/seeded")):
                 if rc == 1: break
     finally:
         sh("git -C /repo checkout -- . && git -C /repo clean -fdq -- contracts packages")
-    meta["detection"] = det
-    json.dump(meta, open(f"{p}/meta.json", "w"), indent=1)
+    if not DRY:
+        meta["detection"] = det
+        json.dump(meta, open(f"{p}/meta.json", "w"), indent=1)
     tier = "quick" if det.get("quick", {}).get("caught") else ("thorough" if det.get("thorough", {}).get("caught") else "MISSED")
     sig = (det.get(tier, {}).get("first_violation", "") if tier != "MISSED" else "")
     sig = sig.split(" hist=")[0].replace("violation sig=", "")
     rows.append((d, prop, tier, sig))
     print(f"{d:6s} {tier:9s} {sig}", flush=True)
-json.dump(rows, open("/verif/seeded/SUMMARY.json", "w"), indent=1)
+if not DRY and not only:
+    json.dump(rows, open("/verif/seeded/SUMMARY.json", "w"), indent=1)
 print(sum(1 for r in rows if r[2] == "quick"), "caught by quick,", sum(1 for r in rows if r[2] == "thorough"), "only by thorough,", sum(1 for r in rows if r[2] == "MISSED"), "missed, of", len(rows))
